@@ -14,7 +14,12 @@ def sh(cmd, **kw):
     return subprocess.run(cmd, shell=True, stdout=subprocess.PIPE, stderr=subprocess.STDOUT, text=True, **kw)
 
 
+CHECK_ONLY = "--check-only" in sys.argv  # regression of the final checks against already-confirmed seeds
+
+
 def one(name, baseline=True, extra_checks=()):
+    if CHECK_ONLY:
+        return recheck(name)
     d = os.path.join(HERE, "seeded", name)
     prop = name.split("_")[0]
     wt = os.path.join(WT, name)
@@ -72,6 +77,31 @@ def one(name, baseline=True, extra_checks=()):
     return meta
 
 
+def recheck(name):
+    d = os.path.join(HERE, "seeded", name)
+    prop = name.split("_")[0]
+    wt = os.path.join(WT, name)
+    sh(f"git -C /repo worktree remove --force {wt}")
+    shutil.rmtree(wt, ignore_errors=True)
+    os.makedirs(WT, exist_ok=True)
+    assert sh(f"git -C /repo worktree add -q --detach {wt} HEAD").returncode == 0
+    meta = json.load(open(os.path.join(d, "meta.json")))
+    try:
+        assert sh(f"git -C {wt} apply {d}/patch.diff").returncode == 0
+        out = os.path.join(WT, name + "_out")
+        shutil.rmtree(out, ignore_errors=True)
+        os.makedirs(out)
+        r = sh(f"./check {prop} --tier quick", cwd=HERE, env=dict(os.environ, VF_REPO=wt, VF_OUT=out, VF_FAST_FAIL="1"), timeout=7200)
+        meta["final_recheck"] = {"rc": r.returncode, "verif_commit": sh(f"git -C {HERE} rev-parse --short HEAD").stdout.strip()}
+        meta["caught_by"] = sorted(set(meta.get("caught_by") or []) | ({prop} if r.returncode == 1 else set())) if r.returncode == 1 else [c for c in (meta.get("caught_by") or []) if c != prop]
+        shutil.rmtree(out, ignore_errors=True)
+    finally:
+        sh(f"git -C /repo worktree remove --force {wt}")
+        shutil.rmtree(wt, ignore_errors=True)
+    json.dump(meta, open(os.path.join(d, "meta.json"), "w"), indent=1)
+    return meta
+
+
 if __name__ == "__main__":
     args = list(sys.argv[1:])
     half = None
@@ -82,7 +112,7 @@ if __name__ == "__main__":
     names = [a for a in args if not a.startswith("--")] or sorted(n for n in os.listdir(os.path.join(HERE, "seeded")) if os.path.isdir(os.path.join(HERE, "seeded", n)))
     if "--skip-done" in sys.argv:
         names = [n for n in names if not os.path.exists(os.path.join(HERE, "seeded", n, "meta.json"))]
-    names = [n for n in names if not n.startswith("own_")]
+    names = [n for n in names if not n.startswith("own_") or CHECK_ONLY]
     if half is not None:
         names = names[half::2]
     for n in names:
